@@ -304,6 +304,8 @@ type caseState struct {
 	spawnAt int64
 	readLen int
 	present map[tup]bool
+
+	markerIdx map[keys.Key]rec.V
 }
 
 func (cs *caseState) now() int64 { return int64(time.Since(cs.t0)) }
@@ -433,6 +435,7 @@ func runCase(d caseDesc) (res caseResult) {
 		panic(err)
 	}
 	cs.resolver.SetDelegate(cs.dlg)
+	cs.buildMarkerIndex()
 
 	var ops []rec.V
 	var times []opTimes
@@ -458,6 +461,7 @@ func runCase(d caseDesc) (res caseResult) {
 		did := cs.phase == 2
 		clSet, clN, storeSet := false, 0, false
 		var marks []rec.V
+		ta := tb
 		if did {
 			cache.take()
 			if cs.now()-cs.spawnAt > runLimitNS {
@@ -465,6 +469,7 @@ func runCase(d caseDesc) (res caseResult) {
 			}
 			close(cs.pending.g2)
 			cs.ctrlWG.Wait()
+			ta = cs.now()
 			cs.phase = 0
 			cs.pending = nil
 			for _, ev := range cache.take() {
@@ -488,8 +493,19 @@ func runCase(d caseDesc) (res caseResult) {
 			if cs.isInflight() {
 				res.discard = "inflight_after_wait"
 			}
+			switch {
+			case !clSet && storeSet:
+				res.stats["run_decision_error_empty_changelog"]++
+			case storeSet:
+				res.stats["run_decision_full"]++
+			case len(marks) > 0:
+				res.stats["run_decision_partial"]++
+			default:
+				res.stats["run_decision_none"]++
+			}
+		} else {
+			ta = cs.now()
 		}
-		ta := cs.now()
 		times = append(times, opTimes{tb, ta})
 		ops = append(ops, rec.L(rec.I(5), rec.I64(tb), rec.I64(ta), rec.Bool(did), rec.Bool(clSet), rec.I(clN), rec.Bool(storeSet), rec.L(marks...), rec.I(cs.readLen)))
 	}
@@ -695,29 +711,24 @@ func (cs *caseState) iterKey(k ikey) keys.Key {
 	}
 }
 
-// which entity marker is this key?  (candidates: every object / user / relation of the vocabulary)
-func (cs *caseState) markerV(k keys.Key) rec.V {
-	for oid := 1; oid <= 400; oid++ {
-		for r := 1; r <= 4; r++ {
-			if k == storage.InvalidIteratorByObjectRelationCacheKey(cs.store, "doc:"+strconv.Itoa(oid), relName[r]) {
-				return rec.L(rec.I(0), rec.I(1), rec.I(oid), rec.I(r))
-			}
+// which entity marker is this key?  (candidates: every object / user / relation that the timeline writes)
+func (cs *caseState) buildMarkerIndex() {
+	cs.markerIdx = map[keys.Key]rec.V{}
+	for _, o := range cs.d.Ops {
+		for _, t := range o.Ws {
+			cs.markerIdx[storage.InvalidIteratorByObjectRelationCacheKey(cs.store, "doc:"+strconv.Itoa(t.Oid), relName[t.Rel])] =
+				rec.L(rec.I(0), rec.I(1), rec.I(t.Oid), rec.I(t.Rel))
+			cs.markerIdx[storage.InvalidIteratorByUserObjectTypeCacheKey(cs.store, userString(t.User), "doc")] =
+				rec.L(rec.I(1), rec.I(t.User), rec.I(1))
 		}
 	}
-	for _, u := range cs.allUsers() {
-		if k == storage.InvalidIteratorByUserObjectTypeCacheKey(cs.store, userString(u), "doc") {
-			return rec.L(rec.I(1), rec.I(u), rec.I(1))
-		}
-	}
-	return rec.L(rec.I(9))
 }
 
-func (cs *caseState) allUsers() []int {
-	us := []int{1, 2, 3, 50}
-	for i := 1; i <= 400; i++ {
-		us = append(us, 100+i, 1000+i)
+func (cs *caseState) markerV(k keys.Key) rec.V {
+	if v, ok := cs.markerIdx[k]; ok {
+		return v
 	}
-	return us
+	return rec.L(rec.I(9))
 }
 
 // ---------------------------------------------------------------------------------------------
@@ -738,7 +749,7 @@ func (g *gen) add(k string, slot int) *opDesc {
 }
 
 // one tuple change of the given family; mostly a new tuple, sometimes the deletion of a present one
-func (g *gen) change(fam int) tup {
+func (g *gen) change(fam int, before map[[3]int]bool) tup {
 	g.fresh++
 	var t tup
 	switch fam {
@@ -753,7 +764,10 @@ func (g *gen) change(fam int) tup {
 	}
 	if g.r.Chance(1, 4) {
 		var cands [][3]int
-		for p := range g.present {
+		for p := range before {
+			if !g.present[p] {
+				continue
+			}
 			if (fam == 0 && p[2] == relViewer && p[1] <= 2) || (fam == 1 && p[2] == relParent) || (fam == 2 && (p[2] == relEditor || p[2] == relOwner)) {
 				cands = append(cands, p)
 			}
@@ -771,12 +785,16 @@ func (g *gen) change(fam int) tup {
 
 func (g *gen) write(slot, n int, fam int) {
 	o := g.add("w", slot)
+	before := map[[3]int]bool{}
+	for p := range g.present {
+		before[p] = true
+	}
 	for i := 0; i < n; i++ {
 		f := fam
 		if f < 0 {
 			f = rec.Pick(g.r, []int{0, 0, 1, 2, 2, 3})
 		}
-		o.Ws = append(o.Ws, g.change(f))
+		o.Ws = append(o.Ws, g.change(f, before))
 	}
 }
 
@@ -836,7 +854,38 @@ func generate(seed uint64, idx int) caseDesc {
 	}
 	g.write(0, r.Range(1, 3), -1)
 	ttlSlots := func(ttl, delta int) int { return ttl/20 + delta }
-	switch t := r.Intn(20); {
+	t := r.Intn(20)
+	if d.Jit > 0 && !(d.Qon && d.Ion) && r.Chance(2, 3) {
+		t = 100
+	}
+	switch {
+	case t == 100: // an entry whose jittered TTL outlives what the controller assumes
+		d.Tmpl = "jitter_witness"
+		for _, l := range g.lists {
+			g.add("r", 0).Keys = l
+		}
+		g.add("rd", 0)
+		g.add("f", 0)
+		// the first run invalidated everything: populate again
+		for _, l := range g.lists {
+			g.add("r", 0).Keys = l
+		}
+		g.write(1, 2, -1)
+		if d.Ion {
+			// the write leaves the iterator TTL window before the run looks at it
+			g.add("i", ttlSlots(d.Ittl, r.Range(1, 2)))
+			g.add("rd", 0)
+			g.add("f", 0)
+		} else {
+			// the changelog entry written by the run expires before the jittered query entry
+			g.add("i", 0)
+			g.add("rd", 0)
+			g.add("f", 0)
+			g.add("r", ttlSlots(d.Qttl, r.Range(1, 2))).Keys = g.lists[0]
+		}
+		for _, l := range g.lists {
+			g.add("r", 0).Keys = l
+		}
 	case t == 0: // the timeline of docs/caching.md
 		d.Tmpl = "docs"
 		g.request(1)
@@ -868,6 +917,20 @@ func generate(seed uint64, idx int) caseDesc {
 			left -= n
 		}
 		g.add("i", r.Range(0, 2))
+		g.add("rd", 0)
+		g.add("f", 0)
+		for _, l := range g.lists {
+			g.add("r", 0).Keys = l
+		}
+	case t == 9: // exactly one page, one less, one more of recent changes after an old one
+		d.Tmpl = "page_boundary"
+		for _, l := range g.lists {
+			g.add("r", 0).Keys = l
+		}
+		g.add("rd", 0)
+		g.add("f", 0)
+		g.write(ttlSlots(d.Ittl, r.Range(1, 3)), rec.Pick(r, []int{48, 49, 50, 51, 52}), rec.Pick(r, []int{3, 3, -1}))
+		g.add("i", r.Range(0, 1))
 		g.add("rd", 0)
 		g.add("f", 0)
 		for _, l := range g.lists {
@@ -986,7 +1049,9 @@ func emit(w *rec.Writer, res caseResult) {
 	w.Stat("case_"+mode, 1)
 	w.Stat("template_"+res.desc.Tmpl, 1)
 	d := res.desc
-	d.Ops = nil // regenerated from (seed, idx)
+	if d.Tmpl != "witness" {
+		d.Ops = nil // regenerated from (seed, idx)
+	}
 	w.Case(d, res.vals...)
 }
 
@@ -1006,7 +1071,7 @@ func main() {
 		for sc.Scan() {
 			var d caseDesc
 			if json.Unmarshal(sc.Bytes(), &d) == nil && d.Tmpl != "" {
-				if len(d.Ops) == 0 {
+				if d.Tmpl != "witness" {
 					d = generate(d.Seed, d.Idx)
 				}
 				// a replayed timeline hits the same time windows: repeat it a few times so that at
